@@ -2866,3 +2866,45 @@ for _p in ('C04', 'C12', 'C13'):
     _attach(_p, 'async: wait runs the thread-local systems on the caller, after the state is back', spec_async_wait)
     _attach(_p, 'async: setup waits too', spec_async_setup)
     _attach(_p, 'async: build_async', spec_build_async)
+
+
+# ================================================================================================
+# C18: the two queries users are told to use to find out whether a dependency may be named (`has_system`, `contains`):
+# a registration sequence is well-formed iff every dependency names an earlier system - these answer from the same
+# name map `add` resolves dependencies in, under the raw name (eleventh round: the audit listed them as executed by no specification)
+
+def _through_local(o, e, i, want):
+    """argument i of call e is `want`, directly or as a reference to the local that holds it"""
+    if i < len(e.args) and term_contains(e.args[i], want):
+        return True
+    v = e.argvals[i] if i < len(e.argvals) else None
+    if isinstance(v, Ref) and v.place.base[0] == 'L':
+        v = o.st.store.get(v.place.key(), {}).get(v.place.path)
+        return v is not None and not isinstance(v, Ref) and to_term(v).eq(want)
+    return False
+
+
+def spec_builder_queries(ctx):
+    key = 'builder-queries'
+    i_map = fidx('src/dispatch/builder.rs', 'DispatcherBuilder', 'map')
+    for n in ('has_system', 'contains'):
+        o = straight(ctx, key, ctx.one(BUILDER, n), 'DispatcherBuilder::%s' % n)
+        if not o:
+            continue
+        cs = [e for e in sig(o, noise=r'^drop$') if not re.search(r'as Deref(Mut)?>::deref(_mut)?$', e.callee)]
+        der = [e for e in sig(o, noise=r'^drop$') if re.search(r'as Deref(Mut)?>::deref(_mut)?$', e.callee)]
+        ok = len(cs) == 1 and re.search(r'HashMap::<String, SystemId.*>::contains_key::<str>$', cs[0].callee) is not None  # matches AHashMap:: too
+        ok2 = len(cs) == 2 and re.search(r'HashMap::<String, SystemId.*>::get::<str>$', cs[0].callee) is not None and \
+            re.search(r'^Option::<&SystemId>::is_some$', cs[1].callee) is not None and _through_local(o, cs[1], 0, cs[0].result)
+        ok = ok or ok2
+        ctx.ob(key, '%s: one lookup (contains_key, or get + is_some) on a name map and nothing else' % n, ok, str([e.callee[:80] for e in cs]))
+        if ok:
+            m = cs[0].args[0]
+            own = term_contains(m, M.f_fld(M.f_deref(P(1)), i_map)) or any(m.eq(d.result) and term_contains(d.args[0], M.f_fld(M.f_deref(P(1)), i_map)) for d in der)
+            okk = own and cs[0].args[1].eq(P(2)) and o.value is not None and to_term(o.value).eq(cs[-1].result)
+            ctx.ob(key, '%s(name) answers whether this builder\'s name map - the one add resolves dependencies in - has the name exactly as given' % n, bool(okk),
+                   'map %s key %s value %r' % (m, cs[0].args[1], o.value))
+
+
+_attach('C18', 'has_system / contains answer from the name map add uses', spec_builder_queries)
+_attach('C02', 'has_system / contains answer from the name map add uses', spec_builder_queries)
